@@ -122,6 +122,20 @@ Example C01_pref64_examples :
   = [16 * sec; 24 * sec; 1800 * sec; 5400 * sec; 65528 * sec].
 Proof. reflexivity. Qed.
 
+(* ---- composition with C02: every interface of every configuration the parser model accepts has
+   its plugins grouped by kind in the extracted append order, so the hypothesis of C01_kind_order is a
+   consequence of acceptance: every RA built from an accepted configuration carries its options in the
+   documented order prefixes, routes, RDNSS, DNSSL, MTU, SLLA, captive portal, PREF64 *)
+From CR Require Model.Config Proofs.Bridge.
+Theorem C01_accepted_order : forall raw c i s r,
+  Config.parse raw = Ok c -> In i (fst c) -> build i s = Ok r ->
+  StronglySorted N.le (map opt_rank (ra_opts r)).
+Proof.
+  intros raw c i s r P Hin Hb.
+  pose proof (Bridge.parse_sorted raw c P) as Hs. rewrite Forall_forall in Hs.
+  exact (build_kind_order i s r (Hs i Hin) Hb).
+Qed.
+
 Print Assumptions C01_exact.
 Print Assumptions C01_parser_order.
 Print Assumptions C01_kind_order.
@@ -133,3 +147,4 @@ Print Assumptions C01_config_unchanged.
 Print Assumptions C01_deterministic.
 Print Assumptions C01_repeat.
 Print Assumptions C01_pref64_lifetime.
+Print Assumptions C01_accepted_order.
